@@ -32,7 +32,7 @@ ASSUMPTIONS = ['the planted truth comes from the harness\'s own exact piecewise-
                'degenerate plantings are discarded by the reference, not failed']
 PROBES = ['planted_av_at_range_end', 'planted_distance_at_range_end', 'planted_distance_interior', 'aperture_clamped', 'flag4_point', 'limit_band',
           'garbage_band', 'filter_desc_order', 'filter_partial_overlap', 'convolve_crash_rerun', 'fit_crash_restart', 'degenerate_discarded',
-          'singular_discarded', 'apdep', 'free_scale', 'params_row_checked']
+          'singular_discarded', 'apdep', 'free_scale', 'params_row_checked', 'prelude_epoch']
 
 
 def budgets(tier):
@@ -66,6 +66,9 @@ def generate(rng, tier, idx):
              'lim_conf': [rng.choice([0.0, 0.5, 0.9, 1.0]) for _ in range(nf)], 'g': [rng.choice([-999.0, 0.0, 1e-30, 12345.6, -3.0]) for _ in range(nf)]}
         plants.append(p)
     sc['plants'] = plants
+    if rng.random() < 0.3:
+        from ..author import prelude_spec
+        sc['prelude'] = {'world': prelude_spec(w, rng), 'seed': rng.randrange(1 << 30)}
     return sc
 
 
@@ -209,6 +212,8 @@ def _execute(sc, sim, out):
         out.discarded = 'all-plantings-degenerate'
         return
     # ---- stage 1: convolve
+    if sc.get('prelude'):
+        pipe.run_prelude(sim, sc, out, d=sim.path('pkg'))
     d = W.write(sim.path('pkg'))
     kw = {}
     if fmt == 2:
@@ -326,6 +331,8 @@ def _execute(sc, sim, out):
 
 
 def lowerings(sc, viol=None):
+    if sc.get('prelude'):
+        yield dict(sc, prelude=None)
     if sc['conv_crash'] is not None:
         yield dict(sc, conv_crash=None)
     if sc['fit_crash'] is not None:
